@@ -10,6 +10,22 @@ open Curtsies Curtsies.Spec Curtsies.Spec.Terminal
 /-- no ESC / 8-bit CSI in the text (C01's domain) -/
 def EscFree (l : FmtStr) : Prop := ∀ ch ∈ text l, ch ≠ Curtsies.ESC ∧ ch ≠ Curtsies.CSI8
 
+/-- control characters: C0 (ESC, newline, tab, ...), DEL, C1 (0x9b, ...) -/
+def isControl (ch : Char) : Bool :=
+  ch.toNat < 0x20 || ch.toNat == 0x7f || (0x80 ≤ ch.toNat && ch.toNat ≤ 0x9f)
+
+/-- The rows the terminal spec's `put` is defined for: printable characters only (no control character at all;
+    in addition each is assumed to occupy one column — "single-column characters" in the properties' quantifiers;
+    the spec advances one column per cell). -/
+def Printable (l : FmtStr) : Prop := ∀ ch ∈ text l, isControl ch = false
+
+theorem Printable.escFree {l : FmtStr} (h : Printable l) : EscFree l := by
+  intro ch hch
+  have := h ch hch
+  constructor
+  · intro e; rw [e] at this; exact absurd this (by decide)
+  · intro e; rw [e] at this; exact absurd this (by decide)
+
 theorem putStr_render (l : FmtStr) (h : EscFree l) : TermOp.putStr (render l) = .put (effCells l) {} := by
   unfold TermOp.putStr; rw [C01_display l h]
 
@@ -97,7 +113,7 @@ theorem contentLoop_nil (old : RowCache) (w : Nat) (clip : FmtStr → FmtStr) (r
 structure ContentPost (cur : RowCache) (clip : FmtStr → FmtStr) (lines : List FmtStr) (k : Nat) (t t' : Term)
     (cur' : RowCache) : Prop where
   frame : SameFrame t t'
-  bg : t'.g.bg = none
+  bg : t'.g = {}
   shows : ∀ i (hi : i < lines.length), Shows t' (k + i) (effCells (clip lines[i]))
   others : ∀ r, (r < k ∨ k + lines.length ≤ r) → ∀ c, t'.grid r c = t.grid r c
   cacheIn : ∀ i (hi : i < lines.length), cur'.get ((k + i : Nat) : Int) = some (some (clip lines[i]))
@@ -107,7 +123,7 @@ theorem get_nil (k : Int) : RowCache.get [] k = none := rfl
 
 /-- one row of the content loop -/
 theorem contentRow (old : RowCache) (hold : CacheEsc old) (t : Term) (k : Nat) (line : FmtStr)
-    (hk : k < t.h) (hbg : t.g.bg = none) (hesc : EscFree line) (hlen : len line ≤ t.w) (hcoh : Coherent old t k) :
+    (hk : k < t.h) (hbg : t.g = {}) (hesc : EscFree line) (hlen : len line ≤ t.w) (hcoh : Coherent old t k) :
     RowStep t (exec t (if lineEq line (old.get k) then [] else writeLine k line t.w)) k ∧
     Shows (exec t (if lineEq line (old.get k) then [] else writeLine k line t.w)) k (effCells line) := by
   by_cases heq : lineEq line (old.get k) = true
@@ -136,7 +152,7 @@ theorem contentRow (old : RowCache) (hold : CacheEsc old) (t : Term) (k : Nat) (
 
 theorem contentLoop_spec (old : RowCache) (w : Nat) (clip : FmtStr → FmtStr) (hold : CacheEsc old) :
     ∀ (lines : List FmtStr) (k m : Nat) (cur : RowCache) (t : Term),
-      t.w = w → lines.length ≤ m → k + lines.length ≤ t.h → t.g.bg = none →
+      t.w = w → lines.length ≤ m → k + lines.length ≤ t.h → t.g = {} →
       (∀ l ∈ lines, EscFree (clip l) ∧ len (clip l) ≤ w) → Coherent old t k →
       ContentPost cur clip lines k t (exec t (contentLoop old w clip (intRows k m) lines cur).2)
         (contentLoop old w clip (intRows k m) lines cur).1 := by
@@ -201,14 +217,14 @@ theorem blankLoop_cons (old : RowCache) (row : Int) (rows : List Int) (cur : Row
 
 structure BlankPost (cur : RowCache) (k m : Nat) (t t' : Term) (cur' : RowCache) : Prop where
   frame : SameFrame t t'
-  bg : t'.g.bg = none
+  bg : t'.g = {}
   shows : ∀ r, k ≤ r → r < k + m → Shows t' r []
   others : ∀ r, (r < k ∨ k + m ≤ r) → ∀ c, t'.grid r c = t.grid r c
   cacheIn : ∀ r : Nat, k ≤ r → r < k + m → cur'.get (r : Int) = some none ∨ cur'.get (r : Int) = cur.get (r : Int)
   cacheOut : ∀ row : Int, (row < (k : Int) ∨ ((k + m : Nat) : Int) ≤ row) → cur'.get row = cur.get row
 
 theorem blankLoop_spec (old : RowCache) :
-    ∀ (m k : Nat) (cur : RowCache) (t : Term), (m ≠ 0 → k + m ≤ t.h) → t.g.bg = none → Coherent old t k →
+    ∀ (m k : Nat) (cur : RowCache) (t : Term), (m ≠ 0 → k + m ≤ t.h) → t.g = {} → Coherent old t k →
       BlankPost cur k m t (exec t (blankLoop old (intRows k m) cur).2) (blankLoop old (intRows k m) cur).1 := by
   intro m
   induction m with
